@@ -23,10 +23,40 @@ import (
 	"verif/internal/ref"
 )
 
-const (
+// verifDir is where this framework lives (the directory run.sh is in); repoDir
+// is the tree under test: /repo unless VERIF_REPO names a scratch copy (used
+// only to try seeded changes without touching /repo).
+var (
 	verifDir = "/verif"
 	repoDir  = "/repo"
+	altMod   = ""
 )
+
+func initDirs() {
+	if d := os.Getenv("VERIF_DIR"); d != "" {
+		verifDir = d
+	} else if wd, err := os.Getwd(); err == nil {
+		if _, err := os.Stat(filepath.Join(wd, "cmd", "vcheck")); err == nil {
+			verifDir = wd
+		}
+	}
+	if r := os.Getenv("VERIF_REPO"); r != "" && r != "/repo" {
+		repoDir = r
+		// alternative go.mod whose replace directive points at the scratch copy
+		b, err := os.ReadFile(filepath.Join(verifDir, "go.mod"))
+		if err != nil {
+			fmt.Fprintln(os.Stderr, "BROKEN:", err)
+			os.Exit(2)
+		}
+		os.MkdirAll(filepath.Join(verifDir, ".bin"), 0o755)
+		altMod = filepath.Join(verifDir, ".bin", "alt.mod")
+		nb := strings.Replace(string(b), "=> /repo", "=> "+r, 1)
+		if err := os.WriteFile(altMod, []byte(nb), 0o644); err != nil {
+			fmt.Fprintln(os.Stderr, "BROKEN:", err)
+			os.Exit(2)
+		}
+	}
+}
 
 type violation struct {
 	Prop    string          `json:"prop"`
@@ -76,6 +106,7 @@ type runState struct {
 }
 
 func main() {
+	initDirs()
 	args := os.Args[1:]
 	if len(args) >= 2 && args[0] == "--replay" {
 		os.Exit(replay(args[1]))
@@ -135,6 +166,9 @@ func variantBuildArgs(v string) []string {
 func buildVariant(v string) error {
 	out := filepath.Join(verifDir, ".bin", "worker_"+v)
 	args := append([]string{"build"}, variantBuildArgs(v)...)
+	if altMod != "" {
+		args = append(args, "-modfile="+altMod)
+	}
 	args = append(args, "-o", out, "./cmd/worker")
 	cmd := exec.Command("go", args...)
 	cmd.Dir = verifDir
